@@ -90,6 +90,52 @@ def run_rule_seq(seq, acc, evaluable=None):
     return None
 
 
+def run_rule_seq_applied_in_between(chain, extra, acc):
+    """chain -> assert_applies -> one more builder call -> assert_applies on the SAME rule object: the second
+    evaluation is classified from the whole call history, so a rule made contradictory after its first
+    (valid) application must still be rejected."""
+    from pytestarch import Rule
+
+    HUB.case = {"kind": "rule_seq_reapplied", "seq": chain, "extra": extra}
+    r = Rule()
+    try:
+        for sym in chain:
+            _apply(r, sym)
+    except Exception:  # noqa: BLE001
+        return
+    run(r, ev())
+    try:
+        _apply(r, extra)
+    except Exception:  # noqa: BLE001
+        acc.evaluated()
+        return
+    run(r, ev())
+    acc.evaluated()
+    acc.count("rule_histories_extended_after_application")
+
+
+def run_layer_seq_applied_in_between(chain, extra, acc):
+    from pytestarch import LayeredArchitecture, LayerRule
+
+    HUB.case = {"kind": "layer_seq_reapplied", "seq": chain, "extra": extra}
+    arch = LayeredArchitecture().layer("A").containing_modules(["r.a"]).layer("B").containing_modules(["r.b"])
+    r = LayerRule()
+    try:
+        for sym in chain:
+            r.based_on(arch) if sym[0] == "based_on" else _apply(r, sym)
+    except Exception:  # noqa: BLE001
+        return
+    run(r, ev())
+    try:
+        r.based_on(arch) if extra[0] == "based_on" else _apply(r, extra)
+    except Exception:  # noqa: BLE001
+        acc.evaluated()
+        return
+    run(r, ev())
+    acc.evaluated()
+    acc.count("layer_histories_extended_after_application")
+
+
 def dfs_rule(prefix, maxlen, acc):
     stop = run_rule_seq(prefix, acc)
     acc.count("rule_histories")
@@ -205,6 +251,10 @@ def run_shard(spec, acc):
                     acc.evaluated()
                 acc.hist("mutation_kind", "rule:" + kind)
                 acc.nontrivial({"m": m})
+            for sym in RULE_VOCAB:
+                run_rule_seq_applied_in_between(chain, sym, acc)
+                acc.hist("mutation_kind", "rule:extended-after-application")
+                acc.nontrivial({"m": chain, "x": sym})
         for ci, chain in enumerate(canonical_layer_chains()):
             if ci % spec["parts"] != spec["part"]:
                 continue
@@ -215,6 +265,10 @@ def run_shard(spec, acc):
                     acc.evaluated()
                 acc.hist("mutation_kind", "layer:" + kind)
                 acc.nontrivial({"m": m})
+            for sym in c16.RULE_VOCAB[1:]:
+                run_layer_seq_applied_in_between(chain, sym, acc)
+                acc.hist("mutation_kind", "layer:extended-after-application")
+                acc.nontrivial({"m": chain, "x": sym})
         acc.flags["exhaustive_mutations"] = True
     elif k == "diagram":
         diagram_sequences(acc)
@@ -436,6 +490,10 @@ def replay(case, acc):
         run_rule_seq(seq, acc)
     elif k == "layer_seq":
         run_layer_seq(seq, acc)
+    elif k == "rule_seq_reapplied":
+        run_rule_seq_applied_in_between(seq, tuple(case["extra"]), acc)
+    elif k == "layer_seq_reapplied":
+        run_layer_seq_applied_in_between(seq, tuple(case["extra"]), acc)
     elif k == "misspelt":
         from ..drive import mk_rule
 
